@@ -14,11 +14,14 @@ import framegen
 def run(chk):
     rng = SplitMix64(chk.seed).fork('C01')
     thorough = chk.tier == 'thorough'
+    chk.level = 'translation_validation'
     chk.prove('props/C01.v')
     if not prepare(chk):
         return
     n = 1500 if thorough else 260
     frames = framegen.make_libzstd_frames(rng, n)
+    import synth
+    frames += synth.make_sequence_frames(rng, n // 2)
     frames += [f for f in framegen.make_ruzstd_frames(rng, n // 4) if f.get('frame')]
     frames += framegen.make_simple_synthetic(rng, n // 3)
     lines = ['src=%s I Q Ba Q C K Q' % hexs(f['frame']) for f in frames]
